@@ -190,7 +190,7 @@ func (ex *Exec) pos(p token.Pos) string {
 		return ""
 	}
 	pp := ex.g.fset.Position(p)
-	return fmt.Sprintf("%s:%d", strings.TrimPrefix(pp.Filename, "/repo/"), pp.Line)
+	return fmt.Sprintf("%s:%d", strings.TrimPrefix(pp.Filename, repoRoot+"/"), pp.Line)
 }
 
 // ---- obligations ---------------------------------------------------------
